@@ -15,6 +15,7 @@
 From Coq Require Import SpecFloat.
 Require Import Base Value Float PrintOptions Printer ParseOptions Utf8 Reader Scan Num NumberOps Parser.
 Require Import RelFramework IoProofs RoundtripProofs TextProofs SimFramework InterruptProofs CrossProofs SourcesAgree StrSliceProofs Utf8StrProofs ValidTextProofs.
+Require IoFailProofs.
 Local Open Scope nat_scope.
 
 Theorem C06_failure_is_error : forall r e l, rpending r = false -> skip_intr (rinput r) = EFail e :: l ->
@@ -299,3 +300,24 @@ Proof.
   cbv zeta. split; [vm_compute; reflexivity|]. split; [vm_compute; reflexivity|]. split; [vm_compute; reflexivity|].
   eexists; eexists. split; [vm_compute; reflexivity|]. split; vm_compute; reflexivity.
 Qed.
+
+(* ... and at every call: a parser on the failing stream (s2) and a parser on
+   the same prefix with any other continuation (s1), standing at the same place
+   inside the prefix (IoFailProofs.sprel), make the same call. Then the failing
+   stream's call ends in the I/O error e (or a model artefact: fuel, panic -
+   excluded for whole parses by C03), or the other runs out of fuel, or both
+   return the same item with the same nesting budget and - when it is a value -
+   still stand side by side. So the statement chains over iterations. *)
+Theorem C06_io_error_or_determined_every_call : forall e post cont ro alpha fast std_parse fuel s1 s2,
+  IoFailProofs.sprel e post cont s1 s2 ->
+  IoFailProofs.pesc e (fst (next_value ro alpha fast std_parse fuel s2)) \/
+  fst (next_value ro alpha fast std_parse fuel s1) = PErr (XErr EFuel) \/
+  (fst (next_value ro alpha fast std_parse fuel s1) = fst (next_value ro alpha fast std_parse fuel s2) /\
+   depth (snd (next_value ro alpha fast std_parse fuel s1)) = depth (snd (next_value ro alpha fast std_parse fuel s2)) /\
+   (IoFailProofs.is_pok (fst (next_value ro alpha fast std_parse fuel s2)) ->
+    IoFailProofs.srel e post cont (rd (snd (next_value ro alpha fast std_parse fuel s1))) (rd (snd (next_value ro alpha fast std_parse fuel s2))))).
+Proof.
+  intros e post cont ro alpha fast std_parse fuel s1 s2 H.
+  exact (proj1 (IoFailProofs.str_values e post cont ro alpha fast std_parse fuel) s1 s2 H).
+Qed.
+Print Assumptions C06_io_error_or_determined_every_call.
